@@ -266,7 +266,12 @@ def pad_oracle(args):
     try:
         mps.pad_bond_dimension(args["target"])
     except ValueError:
-        w = dense.mps_dense(mps)  # target below a current bond: rejected, as documented — and the state must be left as it was
+        # target below a current bond: rejected, as documented — and the state must be left as it was
+        shapes = [t.shape for t in mps.tensors]
+        if any(shapes[i][2] != shapes[i + 1][1] for i in range(len(shapes) - 1)):
+            return (f"pad_bond_dimension({args['target']}) refused the request (ValueError) but left tensors that no longer fit together: shapes {shapes} "
+                    f"(chain with physical dimensions {dims}, bonds {args.get('bonds')})")
+        w = dense.mps_dense(mps)
         if w.shape != v.shape or np.linalg.norm(w - v) > 1e-12 * max(1.0, np.linalg.norm(v)):
             return f"pad_bond_dimension({args['target']}) refused the request but changed the state"
         return None
@@ -287,7 +292,8 @@ def pad_oracle(args):
 
 
 def search(ctx):
-    wide = [dict(L=4, dims=[3, 3, 3, 3], bonds=[3, 9, 3], target=9), dict(L=4, dims=[3, 2, 2, 3], bonds=[3, 4, 3], target=4),
+    wide = [dict(L=4, dims=[2, 2, 2, 2], bonds=[1, 1, 4], target=2, canonical=False),  # the first sites fit, a later one does not
+            dict(L=4, dims=[3, 3, 3, 3], bonds=[3, 9, 3], target=9), dict(L=4, dims=[3, 2, 2, 3], bonds=[3, 4, 3], target=4),
             dict(L=5, dims=[2] * 5, bonds=[4, 4, 4, 4], target=8), dict(L=5, dims=[2] * 5, bonds=[4, 4, 4, 4], target=4, canonical=False),
             dict(L=3, dims=[2, 3, 2], bonds=[2, 2], target=2), dict(L=4, dims=[2] * 4, bonds=[2, 3, 2], target=4)]
     for k in range(ctx.scale(40, 600)):
